@@ -183,7 +183,9 @@ pub fn gen_claims(r: &mut Rng, cfg: &TreeCfg, now: u64) -> Value {
     if r.chance(1, 2) {
         // iat is the issuer's own statement: usually in the past, now and then in the future or beyond exp (nothing depends on it)
         let iat = match r.below(16) { 0 => exp + 1 + r.next() % 1000, 1 => exp, 2 => now + 300 + r.next() % 100_000, _ => now - (r.next() % 100_000) };
-        std.push(("iat".into(), json!(iat)));
+        // ... and of any JSON type: the library copies it as it is
+        let iat = if cfg.plain { json!(iat) } else { match r.below(24) { 0 => json!("2023-05-02T04:00:00Z"), 1 => json!(iat as f64 + 0.5), 2 => json!({"at": iat}), 3 => Value::Null, 4 => json!([iat]), _ => json!(iat) } };
+        std.push(("iat".into(), iat));
     }
     if r.chance(1, 3) {
         std.push(("sub".into(), json!(gen_string(r, cfg.plain))));
@@ -684,6 +686,9 @@ pub fn notable_claims(now: u64) -> Vec<(Value, Vec<String>)> {
         (base(json!({"list": ["a", "b", "c", {"d": 1}], "grid": [[["x", "y"], ["z"]], [["w"]]], "n": {"list": [1, 2]}})), vec!["$.grid[0][0][1]".into()]),
         (base(json!({"list": ["a", "b", "c", {"d": 1}], "grid": [[["x", "y"], ["z"]], [["w"]]], "n": {"list": [1, 2]}})), vec!["$.grid[1][0][0]".into(), "$.grid[0][1]".into(), "$.grid.[0].[0].[0]".into()]),
         (base(json!({"cube": [[[[1, 2], [3]], [[4]]], [[[5, {"k": [6, 7]}]]]], "rows": [[1, 2], [3, 4], 5]})), vec!["$.cube[0][0][0][1]".into(), "$.cube[1][0][0][1].k[0]".into(), "$.rows[0][1]".into(), "$.rows[1]".into()]),
+        // objects INSIDE ARRAYS whose only member has a name that merely begins like a reserved one
+        (base(json!({"arr": [{"...x": 1}, {"....": {"a": 1}}, [{"...and more": true}], {"_sdx": 1}, {"_sd_": [1]}, {"... ": null}, {"..": 2}, {"\u{2026}": 3}], "o": {"l": [[{"...1": {"...2": 1}}]]}})),
+         vec!["$.arr[1].....a".into(), "$.arr[3]".into(), "$.o.l[0][0]....1".into(), "$.arr[4]._sd_[0]".into()]),
         // names that begin like the reserved ones
         (base(json!({"_sdk_version": {"major": 1}, "....": {"x": [1, 2]}, "...and more": 3, "nested": {"_sd_": {"_sdx": 1}, "... ": [true]}})), vec!["$._sdk_version.major".into(), "$......x[0]".into(), "$.nested._sd_._sdx".into()]),
     ]
